@@ -9,7 +9,7 @@
    variable names (theorems mk_fun_wf / mk_mat_wf).  The iteration order of an expression's
    variable set (PYTHONHASHSEED) is the field [fparams] of the function: every theorem below
    quantifies over it. *)
-From PyDcop Require Import Base M_RelKinds P_RelKinds P_RelKinds2 P_RelKinds3 P_RelKinds4.
+From PyDcop Require Import Base M_RelKinds P_RelKinds P_RelKinds2 P_RelKinds3 P_RelKinds4 P_RelKinds5.
 From Coq Require Import Permutation.
 Open Scope Z_scope.
 
@@ -343,3 +343,16 @@ Proof. exact cond_slice_exceptions_spec_l. Qed.
 Theorem cond_gv_dict_exceptions_spec : forall c t rn d e,
   wf_b c -> wf_b t -> (gv_dict (RCond c t rn) d = Err e <-> cond_gv_dict_raises c t d e).
 Proof. exact cond_gv_dict_exceptions_spec_l. Qed.
+
+(* exact order of the dimensions after slicing a conditional (P_RelKinds5): a partially sliced
+   conditional lists exactly the remaining dimensions of the original in the same (name) order;
+   when the condition is decided (return_neutral = True) the result lists the remaining
+   variables of the consequence in the consequence's own order -- this is why cond_slice_spec
+   states a Permutation *)
+Theorem cond_slice_dims_exact : forall c t rn p r',
+  wf_b c -> wf_b t -> NoDup (map fst p) -> slice (RCond c t rn) p = Ok r' ->
+  match r' with
+  | RCond _ _ _ => dims r' = remaining p (dims (RCond c t rn))
+  | RBase _ => rn = true -> dims r' = remaining p (bdims t)
+  end.
+Proof. exact cond_slice_dims_exact_l. Qed.
